@@ -215,6 +215,8 @@ def check_spec(spec, labels, order='canonical'):
                     for sid in ('GOV', 'TRE', 'CB', 'HH', 'CAP', 'BUS'):
                         if sid in od and not (o['code'] == cc and sid == issuer):
                             holders.append((o['code'], sid))
+                    if spec.get('manual_gold') == o['code']:
+                        holders.append((o['code'], 'GB'))       # the ad-hoc gold buyer of the manual_gold deviation holds (negative) money too
                 dem_m = g(var(spec, cc, code, 'DEM_' + code))
                 total = sum(g(var(spec, a, b, 'DEM_' + code)) for a, b in holders)
                 need(g, g.eq(dem_m, total), 'money-demand-not-sum', '%s DEM = %s holders sum %s' % (code, dem_m, total))
